@@ -515,7 +515,10 @@ pub unsafe extern "C" fn munmap(addr: *mut c_void, len: size_t) -> c_int {
         }
     }
     if poison {
-        libc::syscall(libc::SYS_mprotect, addr, len, libc::PROT_NONE);
+        // Replace the file mapping by an inaccessible anonymous one at the same address: the
+        // range stays reserved (a read through a dangling pointer faults deterministically),
+        // while the reference to the open file (and with it its flock) is dropped as munmap would.
+        libc::syscall(libc::SYS_mmap, addr, len, libc::PROT_NONE, libc::MAP_FIXED | libc::MAP_PRIVATE | libc::MAP_ANONYMOUS | libc::MAP_NORESERVE, -1, 0);
         return 0;
     }
     libc::syscall(libc::SYS_munmap, addr, len) as c_int
